@@ -236,7 +236,52 @@ def lockstep_clause(model, rep, funcs):
         ok, why = M.all_of(["for $m in moles:\n    $pos.append($m.pos)\n    $quat.append($m.quaternion())\n    $feat.append($m.features)",
                             "$ap = np.concatenate($pos, axis=0)", "$aq = np.concatenate($quat, axis=0)", "$af = pl.concat($feat, how=$$how)",
                             "return cls($ap, Rotation($aq), features=$af)"])
-        if not ok:
+        def _regroup(sink):
+            undecided_ = None
+            # a list handed to concatenate / pl.concat is the list collected from the inputs, not a re-bound one: regrouping one of the three lists (e.g. stacking the frames
+            # that share a schema first) changes its row order while the other two keep the input order (seeded change C12-16)
+            cat_names = {a_.id for c_ in calls_in(f) if (dotted(c_.func) or "") in ("np.concatenate", "pl.concat", "numpy.concatenate", "polars.concat") and c_.args
+                         for a_ in [c_.args[0]] if isinstance(a_, ast.Name)}
+            inputs_ = {"moles", "list(moles)", "tuple(moles)"}
+            for st in ast.walk(f.node):  # locals bound to the materialised input sequence
+                if isinstance(st, ast.Assign) and len(st.targets) == 1 and isinstance(st.targets[0], ast.Name) and norm_src(st.value) in ("moles", "list(moles)", "tuple(moles)"):
+                    inputs_ |= {st.targets[0].id}
+            for nm_ in sorted(cat_names):
+                binds = [st for st in ast.walk(f.node) if isinstance(st, (ast.Assign, ast.AnnAssign)) and st.value is not None and
+                         any(isinstance(t, ast.Name) and t.id == nm_ for t in (st.targets if isinstance(st, ast.Assign) else [st.target]))]
+                for st in binds:
+                    v_ = st.value
+                    if isinstance(v_, ast.List) and not v_.elts or (isinstance(v_, ast.Call) and dotted(v_.func) == "list" and not v_.args):
+                        continue
+                    comp_over_moles = isinstance(v_, ast.ListComp) and len(v_.generators) == 1 and not v_.generators[0].ifs and norm_src(v_.generators[0].iter) in inputs_
+                    if comp_over_moles:
+                        continue
+                    src_ = norm_src(v_)
+                    if any(k in src_ for k in (".values()", ".items()", "groupby", "sorted(", "reversed(", "set(")):
+                        sink.append(("regrouped", f"{nm_} = {src_[:80]}"))
+                    else:
+                        undecided_ = f"`{nm_} = {src_[:70]}` re-binds a list that is concatenated: cannot establish that it keeps one entry per input in input order"
+                # the same in loop form: every loop that appends to a concatenated list runs over the inputs
+                for lp in ast.walk(f.node):
+                    if isinstance(lp, ast.For) and any(isinstance(c_, ast.Call) and isinstance(c_.func, ast.Attribute) and c_.func.attr == "append" and
+                                                       isinstance(c_.func.value, ast.Name) and c_.func.value.id == nm_ for c_ in ast.walk(lp)):
+                        src_ = norm_src(lp.iter)
+                        if src_ in inputs_:
+                            continue
+                        if any(k in src_ for k in (".values()", ".items()", "groupby", "sorted(", "reversed(", "set(")):
+                            sink.append(("regrouped", f"for ... in {src_[:60]}: {nm_}.append(...)"))
+                        else:
+                            undecided_ = f"`for ... in {src_[:60]}` fills `{nm_}`, a list that is concatenated: cannot establish one entry per input in input order"
+            return undecided_
+
+        if ok:
+            sink_: list = []
+            u_ = _regroup(sink_)
+            if sink_:
+                ok, why = False, f"{sink_[0]!r}: one of the three concatenated lists is regrouped while the other two keep the input order"
+            elif u_ is not None:
+                ok, why = None, u_
+        elif not ok:
             # the same rule decided semantically: what reaches the constructor, whatever loop / comprehension builds the three lists
             dom = _ConcatDom()
             it_ = Interp(model, dom, depth=0)
@@ -255,8 +300,9 @@ def lockstep_clause(model, rep, funcs):
                 if (isinstance(c_.func, ast.Attribute) and c_.func.attr in ("insert", "reverse", "sort", "appendleft", "pop", "remove")) or \
                         (dotted(c_.func) or "") in ("reversed", "sorted"):
                     dom.ctor.append(("reordered", norm_src(c_)))
+            undecided_ = _regroup(dom.ctor)
             if dom.ctor and all(c == (("cat", "pos"), ("rot", ("cat", "quat")), ("cat", "feat")) or c == (("cat", "pos"), ("rot", ("cat", "quat")), None) for c in dom.ctor):
-                ok, why = True, ""
+                ok, why = (True, "") if undecided_ is None else (None, undecided_)
             elif dom.ctor:
                 why = f"the constructor receives {dom.ctor[0]!r}"
         rep.ob("LOCK", f.anchor, "concat collects position, quaternion and features of each input in one loop and concatenates the three lists in that order",
